@@ -2,7 +2,7 @@ SPEC = dict(
     id="C26",
     bin="c26",
     cases_quick=3000,
-    cases_thorough=200000,
+    cases_thorough=75000,
     level="proof",
     technique="Coq theorems over a branch-by-branch Gallina model of Decimal::try_from_price / to_unit_price / with_unit_price, find_divisor_decimals / convert_to_u128_storage and the Pyth conversions (all u128 prices, all u8 decimals) + differential correspondence with the Rust functions evaluated inside Coq + exact-truncation oracle on the Rust outputs",
     text="try_from_price is proved to return exactly floor(price*10^precision/10^decimals) with multiplier 20-token_decimals-precision, ExceedMaxDecimals exactly when a decimal setting is above 20 (or token_decimals+precision > 20), and Overflow exactly when that floor does not fit u32; hence the unit price never exceeds the exact price and is less than one step 10^multiplier below it.  The same exactness is proved for with_unit_price (floor/ceil), the U192->u128 storage conversion (no panic, floor, digit count minimal up to the u128::MAX edge) and the Pyth conversions.",
